@@ -73,9 +73,11 @@ def worker(k, q, out):
             demo = d + '/demo_test.rs'
             if os.path.exists(demo):
                 shutil.copy(demo, wt + '/tests/seed_demo.rs')
-                rc1, o1 = sh(['cargo', 'test', '--offline', '--test', 'seed_demo'], cwd=wt, env={'CARGO_TARGET_DIR': wt + '/target'})
+                denv = dict(meta.get('demo_env') or {})
+                denv['CARGO_TARGET_DIR'] = wt + '/target'
+                rc1, o1 = sh(['cargo', 'test', '--offline', '--test', 'seed_demo'], cwd=wt, env=denv)
                 sh(['git', '-C', wt, 'apply', d + '/patch.diff'])
-                rc2, o2 = sh(['cargo', 'test', '--offline', '--test', 'seed_demo'], cwd=wt, env={'CARGO_TARGET_DIR': wt + '/target'})
+                rc2, o2 = sh(['cargo', 'test', '--offline', '--test', 'seed_demo'], cwd=wt, env=denv)
                 os.remove(wt + '/tests/seed_demo.rs')
                 res['demo_clean_rc'] = rc1
                 res['demo_seeded_rc'] = rc2
